@@ -35,6 +35,15 @@ def run(ctx):
         v.fail(name, {"site": "performSwitchover", "request": row.get("cause")},
                "promotion of %s by %s for a request away from %s (scenario %s)" % (row["p"], row["by"], row["from"], row["scn"]),
                {"scenario": meta7["scenarios"].get(row["scn"]), "row": {k: row[k] for k in row if k != "hosts"}})
+    # the call site again: candidates with different priorities, all within the bound; the read of one priority record fails
+    rowsp, failsp, rp = vlib.rows_check(ctx, "internal/app", "^TestVerifC14Prio$", "PrioRows", env={}, timeout=3000, shards=12, chunk=3000,
+                                        par=2, cfg="PrioRows.cfg")
+    metap = cluster.load_meta(ctx)
+    for name, i, row in failsp:
+        v.fail(name, {"site": "getNodePositions", "failing_read": bool(row.get("failing"))},
+               "promoted %s although the highest-priority candidate within the bound is %s (priority record of %r unreadable, "
+               "request %s) (scenario %s)" % (row["promoted"], row["best"], row["failing"], row["request"], row["scn"]),
+               {"scenario": metap["scenarios"].get(row["scn"]), "row": row})
     promos_from = sum(1 for x in rows7 if x["kind"] == "promo" and x.get("from"))
     nontriv = len({str((x["pos"], x["b"], x["from"])) for x in rows if len(x["pos"]) >= 2})
     cov = {
@@ -44,7 +53,7 @@ def run(ctx):
                 "(chain and incomparable) x excluded host x bounds {0,1,60}; random lists of 3-5 over a finer grid; "
                 "non-trivial = at least two positions; distinct counted on (positions, bound, from)",
         "samples": [rows[len(rows) // 7], rows[len(rows) // 2], rows[-1]],
-        "call_site_promotions_with_from": promos_from, "call_site_runs": meta7["runs"],
+        "call_site_promotions_with_from": promos_from, "call_site_runs": meta7["runs"], "call_site_priority_runs": len(rowsp),
         "exhaustive": True,
         "model_conformance": {"rows_equal_to_algorithm_model": len(rows) - drift, "drift": drift},
         "algorithm_model_states": mc.distinct,
